@@ -35,7 +35,7 @@ def generate(ctx):
     for t in (b'$[last - 2147483648]', b'$[last + 2147483647]', b'$[-2147483648 to last]', b'$[last-2147483647 to 2147483647]', b'{-2147483648}', b'{2147483647}'):
         ctx.add(('parse_json_path %s' if t[:1] == b'$' else 'parse_key_paths %s') % gen.hexarg(t), kind='extreme')
     ctx.deep = []
-    depths = [100, 1000, 10000, 100000] + ([200000, 500000] if not ctx.quick else [])
+    depths = [100, 128, 129, 200, 255, 256, 257, 300, 500, 1000, 2000, 5000, 10000, 20000, 50000, 100000] + ([200000, 500000] if not ctx.quick else [])
     for sub in ENTRY:
         for kind in ('arr', 'obj'):
             for n in depths:
@@ -55,19 +55,24 @@ def judge(ctx):
             return t, core.run_one(core.HARNESS_BIN, 'd deep %s %d %s' % (sub, n, kind), timeout=300)
         except Exception as ex:
             return t, 'timeout'
+    # a known deep-recursion finding is a stack overflow (the child dies on a signal) at or beyond the depth recorded
+    # with the finding; a panic, or a crash on a shallower document, is a different violation and is reported
+    known = {k['class']: k for k in core.load_known() if k.get('property') == 'C20' and k.get('status') == 'open' and k.get('class')}
     first_bad = {}
     with concurrent.futures.ThreadPoolExecutor(max_workers=8) as ex:
         for (sub, n, kind), o in ex.map(one, ctx.deep):
             ctx.count('deep_outcomes', '%s:%s' % (sub, o.split(' ')[0]))
             ctx.nontrivial.add(('deep', sub, n, kind))
-            if not (o.startswith('ok') or o.startswith('err')):
-                key = (sub, kind)
-                if key not in first_bad or n < first_bad[key][0]:
-                    first_bad[key] = (n, o)
+            if o.startswith('ok') or o.startswith('err'):
+                continue
+            key = (sub, kind)
+            if key not in first_bad or n < first_bad[key][0]:
+                first_bad[key] = (n, o)
+            cls = 'deep-recursion-%s' % sub
+            k = known.get(cls)
+            if k and o.startswith('abort') and n >= k.get('min_depth', 1 << 62):
+                ctx.known_hits[cls] = ctx.known_hits.get(cls, 0) + 1
+            else:
+                ctx.violate('a nested document brings the call down' if o.startswith('abort') else 'a nested document makes the call panic',
+                            case='deep %s %d %s' % (sub, n, kind), observed=o)
     ctx.stats['first_crashing_depth'] = {'%s/%s' % k: '%d (%s)' % v for k, v in sorted(first_bad.items())}
-    for (sub, kind), (n, o) in sorted(first_bad.items()):
-        cls = 'deep-recursion-%s' % sub
-        if cls in ctx.open_classes:
-            ctx.known_hits[cls] = ctx.known_hits.get(cls, 0) + 1
-        else:
-            ctx.violate('a deeply nested document brings the process down', case='deep %s %d %s' % (sub, n, kind), observed=o)
